@@ -1229,6 +1229,38 @@ fn probe_fresh(args: &Args) {
                         let r = signal_hook_registry::unregister_signal(n as c_int);
                         r as i64
                     }
+                    // other code installed a handler before the library ever saw the signal:
+                    // H one-shot (SA_RESETHAND), G with SA_NODEFER | SA_ONSTACK | a full sa_mask
+                    "H" | "G" => {
+                        extern "C" fn foreign(_: c_int) {}
+                        unsafe {
+                            let mut sa: libc::sigaction = std::mem::zeroed();
+                            sa.sa_sigaction = foreign as usize;
+                            if k == "H" {
+                                sa.sa_flags = libc::SA_RESETHAND;
+                            } else {
+                                sa.sa_flags = libc::SA_NODEFER | libc::SA_ONSTACK;
+                                libc::sigfillset(&mut sa.sa_mask);
+                            }
+                            (libc::sigaction(n as c_int, &sa, std::ptr::null_mut()) == 0) as i64
+                        }
+                    }
+                    // who handles the signal now: 1 = the library's dispatcher with SA_RESTART and
+                    // SA_SIGINFO and not one-shot, 2 = the dispatcher with other flags, 0 = somebody else
+                    "Q" => unsafe {
+                        let mut cur: libc::sigaction = std::mem::zeroed();
+                        libc::sigaction(n as c_int, std::ptr::null(), &mut cur);
+                        if cur.sa_sigaction != signal_hook_registry::verif::handler_addr() {
+                            0
+                        } else if cur.sa_flags & libc::SA_RESTART != 0
+                            && cur.sa_flags & libc::SA_SIGINFO != 0
+                            && cur.sa_flags & libc::SA_RESETHAND == 0
+                        {
+                            1
+                        } else {
+                            2
+                        }
+                    },
                     _ => {
                         let before = ran.load(Ordering::SeqCst);
                         unsafe { libc::raise(n as c_int) };
@@ -1265,6 +1297,413 @@ fn probe_fresh(args: &Args) {
         );
     }
 }
+
+// ---------------------------------------------------------------------------------------------
+// C01 / C02: a delivery stalled inside an earlier action while another thread removes a later one
+// ---------------------------------------------------------------------------------------------
+
+/// One forked child per removal kind: a delivery of SIGUSR1 on thread T1 is stalled (for
+/// `--hold-ms`, real time, native speed) inside the first action; T2 removes the second action
+/// (by id / by signal). Reported: whether the removal returned while the delivery was still stalled
+/// (`early`), and whether the second action started after the removal had returned (`late`).
+fn probe_stall(args: &Args) {
+    let hold = args.num("hold-ms", 800) as u64;
+    for kind in ["unregister", "unregister_signal"] {
+        let st = fork_run(hold * 4 + 8000, || {
+            static SEQ: AtomicUsize = AtomicUsize::new(0);
+            let entered = Arc::new(AtomicBool::new(false));
+            let release = Arc::new(AtomicBool::new(false));
+            let a2_seq = Arc::new(AtomicUsize::new(0));
+            let a2_count = Arc::new(AtomicUsize::new(0));
+            let ret_seq = Arc::new(AtomicUsize::new(0));
+            let (e, r) = (Arc::clone(&entered), Arc::clone(&release));
+            let _id1 = unsafe {
+                signal_hook_registry::register(libc::SIGUSR1, move || {
+                    e.store(true, Ordering::SeqCst);
+                    while !r.load(Ordering::SeqCst) {
+                        libc::sched_yield();
+                    }
+                })
+            }
+            .unwrap();
+            let (s2, c2) = (Arc::clone(&a2_seq), Arc::clone(&a2_count));
+            let id2 = unsafe {
+                signal_hook_registry::register(libc::SIGUSR1, move || {
+                    s2.store(SEQ.fetch_add(1, Ordering::SeqCst) + 1, Ordering::SeqCst);
+                    c2.fetch_add(1, Ordering::SeqCst);
+                })
+            }
+            .unwrap();
+            let t1 = std::thread::spawn(|| unsafe {
+                libc::raise(libc::SIGUSR1);
+            });
+            while !entered.load(Ordering::SeqCst) {
+                std::thread::yield_now();
+            }
+            let rs = Arc::clone(&ret_seq);
+            let t2 = std::thread::spawn(move || {
+                if kind == "unregister" {
+                    signal_hook_registry::unregister(id2);
+                } else {
+                    #[allow(deprecated)]
+                    signal_hook_registry::unregister_signal(libc::SIGUSR1);
+                }
+                rs.store(SEQ.fetch_add(1, Ordering::SeqCst) + 1, Ordering::SeqCst);
+            });
+            std::thread::sleep(std::time::Duration::from_millis(hold));
+            let early = ret_seq.load(Ordering::SeqCst) != 0;
+            release.store(true, Ordering::SeqCst);
+            t1.join().unwrap();
+            t2.join().unwrap();
+            let (a, rr) = (a2_seq.load(Ordering::SeqCst), ret_seq.load(Ordering::SeqCst));
+            report(&format!(
+                "early={};late={};a2={};",
+                early as i32,
+                (a != 0 && a > rr) as i32,
+                a2_count.load(Ordering::SeqCst)
+            ));
+            0
+        });
+        println!(
+            "{}",
+            Obj::new("stall").str("kind", kind).int("hold_ms", hold as i64).str("status", &st.text).raw("r", &kv_json(&st.report)).done()
+        );
+    }
+}
+
+// ---------------------------------------------------------------------------------------------
+// C03 (and C01/C02/C08/C09/C13 on one thread): a real delivery at every instruction boundary
+// ---------------------------------------------------------------------------------------------
+//
+// The scheduler-driven exploration can stop a thread only at shim operations. Here an operation of
+// the library runs under the x86 trap flag: after every instruction a SIGTRAP handler counts the
+// step and (every `stride`-th step) forks. The forked child is a copy of the process *at exactly
+// that instruction boundary*; in it the handler raises SIGURG - a real, kernel-delivered signal,
+// nested on the interrupted operation - whose actions are all the built-in ones (flag, usize flag,
+// self-pipe, Signals, SignalsInfo<WithRawSiginfo>, armed conditional default, unarmed conditional
+// shutdown) plus a counting low-level action. The child then lets the interrupted operation finish
+// without stepping, checks what the delivery did, and reports one line. The parent keeps stepping.
+// A delivery that does not return within the watchdog (blocked on a lock the interrupted code
+// holds, waiting for somebody, ...) is killed and reported as `hung`.
+
+#[cfg(target_arch = "x86_64")]
+mod stepper {
+    use super::*;
+    use std::sync::atomic::AtomicI32;
+
+    pub static STEPS: AtomicUsize = AtomicUsize::new(0);
+    pub static STRIDE: AtomicUsize = AtomicUsize::new(0); // 0: count only
+    pub static OFFSET: AtomicUsize = AtomicUsize::new(0);
+    pub static MAX_STEPS: AtomicUsize = AtomicUsize::new(400_000);
+    pub static FROM: AtomicUsize = AtomicUsize::new(0);
+    pub static TO: AtomicUsize = AtomicUsize::new(usize::MAX);
+    pub static IS_CHILD: AtomicBool = AtomicBool::new(false);
+    pub static CHILD_STEP: AtomicUsize = AtomicUsize::new(0);
+    pub static H_ALLOC: AtomicUsize = AtomicUsize::new(0);
+    pub static H_FREE: AtomicUsize = AtomicUsize::new(0);
+    pub static FORKS: AtomicUsize = AtomicUsize::new(0);
+    pub static HUNG: AtomicUsize = AtomicUsize::new(0);
+    pub static DIED: AtomicUsize = AtomicUsize::new(0);
+    pub static FIRST_BAD: AtomicUsize = AtomicUsize::new(0);
+    pub static FIRST_BAD_STATUS: AtomicI32 = AtomicI32::new(0);
+    pub static RES_FD: AtomicI32 = AtomicI32::new(-1);
+    pub static TRUNCATED: AtomicBool = AtomicBool::new(false);
+    pub static RES_RD: AtomicI32 = AtomicI32::new(-1);
+    pub static OKS: AtomicUsize = AtomicUsize::new(0);
+    pub static mut LINES: [u8; 1 << 20] = [0; 1 << 20];
+    pub static LINES_LEN: AtomicUsize = AtomicUsize::new(0);
+
+    pub unsafe fn set_tf() {
+        core::arch::asm!("pushfq", "or qword ptr [rsp], 0x100", "popfq");
+    }
+    pub unsafe fn clear_tf() {
+        core::arch::asm!("pushfq", "and qword ptr [rsp], -257", "popfq");
+    }
+
+    extern "C" fn on_trap(_sig: c_int, _info: *mut libc::siginfo_t, ctx: *mut libc::c_void) {
+        let n = STEPS.fetch_add(1, Ordering::Relaxed) + 1;
+        let uc = ctx as *mut libc::ucontext_t;
+        if n >= MAX_STEPS.load(Ordering::Relaxed) {
+            TRUNCATED.store(true, Ordering::Relaxed);
+            unsafe { (*uc).uc_mcontext.gregs[libc::REG_EFL as usize] &= !0x100 };
+            return;
+        }
+        let stride = STRIDE.load(Ordering::Relaxed);
+        if stride == 0 || n % stride != OFFSET.load(Ordering::Relaxed) % stride {
+            return;
+        }
+        if n < FROM.load(Ordering::Relaxed) || n > TO.load(Ordering::Relaxed) {
+            return;
+        }
+        FORKS.fetch_add(1, Ordering::Relaxed);
+        let pid = unsafe { libc::fork() };
+        if pid == 0 {
+            // the child: deliver here, then let the interrupted operation finish unstepped
+            IS_CHILD.store(true, Ordering::SeqCst);
+            CHILD_STEP.store(n, Ordering::SeqCst);
+            unsafe {
+                libc::alarm(2);
+                (*uc).uc_mcontext.gregs[libc::REG_EFL as usize] &= !0x100;
+            }
+            let _ = crate::sched::HANDLER_DEPTH.try_with(|d| d.set(d.get() + 1));
+            let _ = crate::sched::H_ALLOCS.try_with(|c| c.set(0));
+            let _ = crate::sched::H_FREES.try_with(|c| c.set(0));
+            unsafe { libc::raise(libc::SIGURG) };
+            let _ = crate::sched::HANDLER_DEPTH.try_with(|d| d.set(d.get() - 1));
+            H_ALLOC.store(crate::sched::H_ALLOCS.try_with(|c| c.get()).unwrap_or(0) as usize, Ordering::SeqCst);
+            H_FREE.store(crate::sched::H_FREES.try_with(|c| c.get()).unwrap_or(0) as usize, Ordering::SeqCst);
+            return;
+        }
+        // the parent: wait for the verdict of that child (bounded), keep stepping
+        let mut st: c_int = 0;
+        let mut waited = 0;
+        loop {
+            let r = unsafe { libc::waitpid(pid, &mut st, libc::WNOHANG) };
+            if r == pid {
+                break;
+            }
+            let ts = libc::timespec { tv_sec: 0, tv_nsec: 200_000 };
+            unsafe { libc::nanosleep(&ts, std::ptr::null_mut()) };
+            waited += 1;
+            if waited > 15_000 {
+                unsafe {
+                    libc::kill(pid, libc::SIGKILL);
+                    libc::waitpid(pid, &mut st, 0);
+                }
+                st = 14; // as if the watchdog had fired
+                break;
+            }
+        }
+        // the child's verdict line: "ok" lines are only counted, others are kept (no allocation here:
+        // the interrupted code may be inside the allocator)
+        unsafe {
+            let mut tmp = [0u8; 512];
+            loop {
+                let r = libc::read(RES_RD.load(Ordering::Relaxed), tmp.as_mut_ptr() as *mut libc::c_void, tmp.len());
+                if r <= 0 {
+                    break;
+                }
+                let got = &tmp[..r as usize];
+                if got.ends_with(b" ok\n") && got.iter().filter(|c| **c == b'\n').count() == 1 {
+                    OKS.fetch_add(1, Ordering::Relaxed);
+                } else {
+                    let at = LINES_LEN.load(Ordering::Relaxed);
+                    let room = (1usize << 20) - at;
+                    let take = std::cmp::min(room, got.len());
+                    std::ptr::copy_nonoverlapping(got.as_ptr(), (std::ptr::addr_of_mut!(LINES) as *mut u8).add(at), take);
+                    LINES_LEN.store(at + take, Ordering::Relaxed);
+                }
+            }
+        }
+        let bad = if libc::WIFSIGNALED(st) && libc::WTERMSIG(st) == libc::SIGALRM {
+            HUNG.fetch_add(1, Ordering::Relaxed);
+            true
+        } else if !(libc::WIFEXITED(st) && libc::WEXITSTATUS(st) == 0) {
+            DIED.fetch_add(1, Ordering::Relaxed);
+            true
+        } else {
+            false
+        };
+        if bad && FIRST_BAD.load(Ordering::Relaxed) == 0 {
+            FIRST_BAD.store(n, Ordering::Relaxed);
+            FIRST_BAD_STATUS.store(st, Ordering::Relaxed);
+        }
+    }
+
+    pub fn install() {
+        unsafe {
+            let mut sa: libc::sigaction = std::mem::zeroed();
+            sa.sa_sigaction = on_trap as usize;
+            sa.sa_flags = libc::SA_SIGINFO;
+            libc::sigemptyset(&mut sa.sa_mask);
+            libc::sigaction(libc::SIGTRAP, &sa, std::ptr::null_mut());
+        }
+    }
+
+    pub fn child_line(s: &str) {
+        let fd = RES_FD.load(Ordering::SeqCst);
+        unsafe { libc::write(fd, s.as_ptr() as *const libc::c_void, s.len()) };
+    }
+}
+
+#[cfg(target_arch = "x86_64")]
+fn probe_step(args: &Args) {
+    use signal_hook::iterator::exfiltrator::WithRawSiginfo;
+    use signal_hook::iterator::{Signals, SignalsInfo};
+    use std::collections::BTreeMap;
+    use stepper::*;
+    let ops_arg = args.get("ops").unwrap_or("register_other,register_same,unregister,signals_pending,raw_pending,add_signal,emulate_first,drop_signals,unregister_signal_other").to_string();
+    let forks_per_op = args.num("forks", 1200);
+    let all = args.flag("all");
+    for op in ops_arg.split(',') {
+        // pass 1 counts the steps of the operation, pass 2 forks at every stride-th step
+        let mut total = 0usize;
+        for pass in 0..2 {
+            let stride = if pass == 0 { 0 } else if all { 1 } else { std::cmp::max(1, total / forks_per_op) };
+            let st = fork_run(args.num("timeout-ms", 600_000) as u64, || {
+                let mut res = [0 as c_int; 2];
+                unsafe { libc::pipe(res.as_mut_ptr()) };
+                RES_FD.store(res[1], Ordering::SeqCst);
+                RES_RD.store(res[0], Ordering::SeqCst);
+                unsafe {
+                    let fl = libc::fcntl(res[0], libc::F_GETFL, 0);
+                    libc::fcntl(res[0], libc::F_SETFL, fl | libc::O_NONBLOCK);
+                }
+                // ---- the environment: every built-in action on SIGURG
+                let sig = libc::SIGURG;
+                let pre = Arc::new(AtomicUsize::new(0));
+                let p2 = Arc::clone(&pre);
+                let _id_pre = unsafe { signal_hook::low_level::register(sig, move || { p2.fetch_add(1, Ordering::SeqCst); }) }.unwrap();
+                let flag = Arc::new(AtomicBool::new(false));
+                signal_hook::flag::register(sig, Arc::clone(&flag)).unwrap();
+                let usz = Arc::new(AtomicUsize::new(0));
+                signal_hook::flag::register_usize(sig, Arc::clone(&usz), 77).unwrap();
+                let (pr, pw) = std::os::unix::net::UnixStream::pair().unwrap();
+                pr.set_nonblocking(true).unwrap();
+                signal_hook::low_level::pipe::register(sig, pw).unwrap();
+                let mut signals = Some(Signals::new(&[sig]).unwrap());
+                let mut raw = SignalsInfo::<WithRawSiginfo>::new(&[sig]).unwrap();
+                let cond = Arc::new(AtomicBool::new(true));
+                signal_hook::flag::register_conditional_default(sig, Arc::clone(&cond)).unwrap();
+                let shut = Arc::new(AtomicBool::new(false));
+                signal_hook::flag::register_conditional_shutdown(sig, 7, Arc::clone(&shut)).unwrap();
+                let ycount = Arc::new(AtomicUsize::new(0));
+                let y2 = Arc::clone(&ycount);
+                let id_y = unsafe { signal_hook::low_level::register(sig, move || { y2.fetch_add(1, Ordering::SeqCst); }) }.unwrap();
+                let _other = unsafe { signal_hook::low_level::register(libc::SIGWINCH, || {}) }.unwrap();
+                let xcount = Arc::new(AtomicUsize::new(0));
+                let mut got_sig: Vec<c_int> = Vec::with_capacity(16);
+                let mut got_raw = 0usize;
+                let mut pre_deliveries = 0usize;
+                if op == "signals_pending" || op == "raw_pending" {
+                    unsafe { libc::raise(sig) };
+                    unsafe { libc::raise(sig) };
+                    pre_deliveries = 2;
+                    drain_count(pr.as_raw_fd());
+                }
+                STRIDE.store(stride, Ordering::SeqCst);
+                OFFSET.store(args.num("offset", 0), Ordering::SeqCst);
+                FROM.store(args.num("from", 0), Ordering::SeqCst);
+                TO.store(args.num("to", usize::MAX), Ordering::SeqCst);
+                install();
+                // ---- the operation, stepped
+                unsafe { set_tf() };
+                match op {
+                    "register_other" => {
+                        let _ = unsafe { signal_hook::low_level::register(libc::SIGUSR1, || {}) };
+                    }
+                    "register_same" => {
+                        let x2 = Arc::clone(&xcount);
+                        let _ = unsafe { signal_hook::low_level::register(sig, move || { x2.fetch_add(1, Ordering::SeqCst); }) };
+                    }
+                    "unregister" => {
+                        signal_hook::low_level::unregister(id_y);
+                    }
+                    "unregister_signal_other" => {
+                        #[allow(deprecated)]
+                        signal_hook_registry::unregister_signal(libc::SIGWINCH);
+                    }
+                    "signals_pending" => {
+                        for s in signals.as_mut().unwrap().pending() {
+                            got_sig.push(s);
+                        }
+                    }
+                    "raw_pending" => {
+                        for _ in raw.pending() {
+                            got_raw += 1;
+                        }
+                    }
+                    "add_signal" => {
+                        let _ = signals.as_ref().unwrap().handle().add_signal(libc::SIGUSR2);
+                    }
+                    "emulate_first" => {
+                        let _ = signal_hook::low_level::emulate_default_handler(libc::SIGWINCH);
+                    }
+                    "drop_signals" => {
+                        drop(signals.take());
+                    }
+                    _ => panic!("unknown op"),
+                }
+                unsafe { clear_tf() };
+                // ---- both the stepping parent and every forked child arrive here
+                if !IS_CHILD.load(Ordering::SeqCst) {
+                    report(&format!(
+                        "nsteps={};forks={};hung={};died={};first_bad={};first_bad_status={};truncated={};",
+                        STEPS.load(Ordering::SeqCst), FORKS.load(Ordering::SeqCst), HUNG.load(Ordering::SeqCst),
+                        DIED.load(Ordering::SeqCst), FIRST_BAD.load(Ordering::SeqCst),
+                        FIRST_BAD_STATUS.load(Ordering::SeqCst), TRUNCATED.load(Ordering::SeqCst) as i32));
+                    // the children's verdicts, by class
+                    unsafe { libc::close(res[1]) };
+                    let buf: Vec<u8> = unsafe {
+                        std::slice::from_raw_parts(std::ptr::addr_of!(LINES) as *const u8, LINES_LEN.load(Ordering::SeqCst)).to_vec()
+                    };
+                    let mut classes: BTreeMap<String, (usize, usize)> = BTreeMap::new();
+                    if OKS.load(Ordering::SeqCst) > 0 {
+                        classes.insert("ok".to_string(), (OKS.load(Ordering::SeqCst), 0));
+                    }
+                    for line in String::from_utf8_lossy(&buf).lines() {
+                        if let Some((k, cls)) = line.split_once(' ') {
+                            let e = classes.entry(cls.to_string()).or_insert((0, k.parse().unwrap_or(0)));
+                            e.0 += 1;
+                        }
+                    }
+                    for (cls, (cnt, first)) in classes {
+                        report(&format!("{}|{}|{};", cls, cnt, first));
+                    }
+                    return 0;
+                }
+                // ---- child: what did the nested delivery do?
+                let k = CHILD_STEP.load(Ordering::SeqCst);
+                let mut bad: Vec<&str> = Vec::new();
+                if H_ALLOC.load(Ordering::SeqCst) + H_FREE.load(Ordering::SeqCst) > 0 { bad.push("handler_allocated"); }
+                if pre.load(Ordering::SeqCst) != pre_deliveries + 1 { bad.push("registered_action_not_once"); }
+                if !flag.load(Ordering::SeqCst) { bad.push("flag_unset"); }
+                if usz.load(Ordering::SeqCst) != 77 { bad.push("usize_flag_wrong"); }
+                let bytes = drain_count(pr.as_raw_fd());
+                if bytes != 1 { bad.push("pipe_bytes_not_one_per_delivery"); }
+                let yc = ycount.load(Ordering::SeqCst);
+                if op == "unregister" { if yc > pre_deliveries + 1 { bad.push("action_twice"); } }
+                else if yc != pre_deliveries + 1 { bad.push("registered_action_not_once"); }
+                if xcount.load(Ordering::SeqCst) > 1 { bad.push("action_twice"); }
+                if let Some(sg) = signals.as_mut() {
+                    for s in sg.pending() { got_sig.push(s); }
+                    if !got_sig.contains(&sig) { bad.push("iterator_lost_the_signal"); }
+                    if got_sig.len() > 2 || got_sig.iter().any(|s| *s != sig) { bad.push("iterator_invented_a_signal"); }
+                }
+                for _ in raw.pending() { got_raw += 1; }
+                if got_raw != pre_deliveries + 1 { bad.push("raw_records_not_one_per_delivery"); }
+                // the library still works afterwards, and the operation took effect
+                unsafe { libc::raise(sig) };
+                if pre.load(Ordering::SeqCst) != pre_deliveries + 2 { bad.push("later_delivery_wrong"); }
+                if op == "unregister" && ycount.load(Ordering::SeqCst) != yc { bad.push("removed_action_ran_after_removal"); }
+                if op == "register_same" && xcount.load(Ordering::SeqCst) == 0 { bad.push("new_action_not_registered"); }
+                // leave the descriptors shared with the stepping parent as they were found
+                drain_count(pr.as_raw_fd());
+                if let Some(sg) = signals.as_mut() { for _ in sg.pending() {} }
+                for _ in raw.pending() {}
+                let line = if bad.is_empty() {
+                    format!("{} ok\n", k)
+                } else {
+                    bad.iter().map(|b| format!("{} {}\n", k, b)).collect::<Vec<_>>().join("")
+                };
+                child_line(&line);
+                unsafe { libc::_exit(0) };
+            });
+            if pass == 0 {
+                total = kv_json(&st.report).split("\"nsteps\":").nth(1).and_then(|t| t.split(',').next()).and_then(|t| t.trim().parse().ok()).unwrap_or(0);
+                if total == 0 { // the counting pass itself failed: report it
+                    println!("{}", Obj::new("step").str("op", op).int("stride", 0).str("status", &st.text).raw("r", &kv_json(&st.report)).done());
+                    break;
+                }
+            } else {
+                println!("{}", Obj::new("step").str("op", op).int("stride", stride as i64).str("status", &st.text).raw("r", &kv_json(&st.report)).done());
+            }
+        }
+    }
+}
+
+#[cfg(not(target_arch = "x86_64"))]
+fn probe_step(_args: &Args) {}
 
 // ---------------------------------------------------------------------------------------------
 // C12: Signals instances and rejected additions
@@ -1633,6 +2072,8 @@ pub fn main(args: &Args, which: &str) -> i32 {
         "pipe" => probe_pipe(args),
         "signals" => probe_signals(args),
         "fresh" => probe_fresh(args),
+        "stall" => probe_stall(args),
+        "step" => probe_step(args),
         "origin" => probe_origin(args),
         _ => {
             eprintln!("unknown probe {}", which);
